@@ -65,6 +65,28 @@ type clientStream struct {
 	// singleResponse marks a stream whose peer answers with one message
 	// (client-streaming RPCs), see SetSingleResponse.
 	singleResponse bool
+
+	// singleRequest marks a stream whose caller sends one message
+	// (server-streaming RPCs), see SetSingleRequest.
+	singleRequest bool
+}
+
+// SetSingleRequest tells the stream that its RPC has a single request
+// message. SendMsg then does not report that the stream is already over, as
+// grpc-go does not for such RPCs: the generated code gives the caller no
+// stream at all when SendMsg fails, and with it no way to read the status,
+// the headers and the trailers the peer finished the call with; RecvMsg
+// reports them. Call it before the stream is used.
+func (cs *clientStream) SetSingleRequest() {
+	cs.singleRequest = true
+}
+
+// overErr is what SendMsg returns when the stream is over already.
+func (cs *clientStream) overErr(err error) error {
+	if cs.singleRequest {
+		return nil
+	}
+	return err
 }
 
 // SetSingleResponse tells the stream that its RPC has a single response
@@ -288,14 +310,14 @@ func (wcs *clientStream) Context() context.Context {
 // not safe to call CloseSend concurrently with SendMsg.
 func (cs *clientStream) SendMsg(m interface{}) error {
 	if done, err := cs.readErrorIfDone(); done {
-		return err
+		return cs.overErr(err)
 	}
 	if ctxErr := cs.ctx.Err(); ctxErr != nil {
 		// Not every transport looks at the context before it writes. The read
 		// loop cancels cs.ctx when the stream finishes, so check again how the
 		// stream ended before blaming the caller's context.
 		if done, err := cs.readErrorIfDone(); done {
-			return err
+			return cs.overErr(err)
 		}
 		return toStatusError(ctxErr)
 	}
@@ -322,7 +344,7 @@ func (cs *clientStream) SendMsg(m interface{}) error {
 		// word on this stream.
 		cs.sendMu.Unlock()
 		if done, err := cs.readErrorIfDone(); done {
-			return err
+			return cs.overErr(err)
 		}
 		return toStatusError(ctxErr)
 	}
@@ -337,7 +359,7 @@ func (cs *clientStream) SendMsg(m interface{}) error {
 			// As above: the stream may have finished while we were writing, in
 			// which case how it ended is the answer, not the cancellation.
 			if done, rErr := cs.readErrorIfDone(); done {
-				return rErr
+				return cs.overErr(rErr)
 			}
 		}
 		cs.abort(err)
